@@ -462,6 +462,7 @@ func (db *DB) doProcessIterations(iterations []*iteration) {
 				allOutFields = append(allOutFields, field)
 			}
 		}
+		verifEvent("coalesce.iteration", it.t.Name, it.outFields, it.includeMemStore)
 	}
 
 	for _, it := range iterations {
@@ -473,6 +474,7 @@ func (db *DB) doProcessIterations(iterations []*iteration) {
 
 	iterations[0].t.log.Debugf("Coalescing %d iterations", len(iterations))
 	verifEvent("coalesce.batch", iterations[0].t.Name, len(iterations))
+	verifEvent("coalesce.union", iterations[0].t.Name, allOutFields, includeMemStore)
 
 	remainingIterations := make(map[int]*iteration, len(iterations))
 	for i, it := range iterations {
